@@ -595,6 +595,84 @@ fn alias_probe(b: &std::sync::Arc<rustradio::circular_buffer::Buffer<u8>>, cap: 
     (got, full)
 }
 
+type Slots = std::sync::Arc<std::sync::Mutex<std::collections::HashMap<u64, Slot>>>;
+
+/// One scripted operation of mmap-run (see cmd_mmap_run).
+fn mmap_op(op: &Value, slots: &Slots) -> Value {
+        let kind = op[1].as_str().unwrap();
+        let r = match kind {
+            "new" => {
+                let slot = op[2].as_u64().unwrap();
+                let size = op[3].as_u64().unwrap() as usize;
+                let elem = op[4].as_u64().unwrap();
+                strace_mark(&format!("new-begin-{slot}"));
+                fn other<T: Copy + Send + Sync + 'static>(size: usize) -> Result<rustradio::Result<Slot>, String> {
+                    catch(|| rustradio::circular_buffer::Buffer::<T>::new(size)).map(|r| r.map(|b| Slot::Other(Box::new(std::sync::Arc::new(b)))))
+                }
+                let res = if elem == 4 {
+                    catch(|| rustradio::circular_buffer::Buffer::<u32>::new(size)).map(|r| r.map(|b| Slot::U32(std::sync::Arc::new(b))))
+                } else if elem == 3 {
+                    other::<[u8; 3]>(size)
+                } else if elem == 6 {
+                    other::<[u16; 3]>(size)
+                } else if elem == 8 {
+                    other::<rustradio::Complex>(size)
+                } else if elem == 12 {
+                    other::<[f32; 3]>(size)
+                } else if elem == 24 {
+                    other::<[u64; 3]>(size)
+                } else if elem == 4096 {
+                    other::<crate::graphs::Big>(size)
+                } else if elem == 8192 {
+                    other::<[u64; 1024]>(size)
+                } else if elem == 16384 {
+                    other::<[u64; 2048]>(size)
+                } else {
+                    catch(|| rustradio::circular_buffer::Buffer::<u8>::new(size)).map(|r| r.map(|b| Slot::U8(std::sync::Arc::new(b))))
+                };
+                let out = match res {
+                    Ok(Ok(s)) => {
+                        slots.lock().unwrap().insert(slot, s);
+                        json!({"ev": "new", "slot": slot, "size": size, "elem": elem, "result": "ok"})
+                    }
+                    Ok(Err(e)) => json!({"ev": "new", "slot": slot, "size": size, "elem": elem, "result": "err", "msg": format!("{e}")}),
+                    Err(p) => json!({"ev": "new", "slot": slot, "size": size, "elem": elem, "result": "panic", "msg": p}),
+                };
+                strace_mark(&format!("new-end-{slot}"));
+                out
+            }
+            "drop" => {
+                let slot = op[2].as_u64().unwrap();
+                strace_mark(&format!("drop-begin-{slot}"));
+                let had = slots.lock().unwrap().remove(&slot).is_some();
+                strace_mark(&format!("drop-end-{slot}"));
+                json!({"ev": "drop", "slot": slot, "had": had})
+            }
+            "alias" => {
+                let slot = op[2].as_u64().unwrap();
+                let i = op[3].as_u64().unwrap() as usize;
+                let g = slots.lock().unwrap();
+                match g.get(&slot) {
+                    Some(Slot::U8(b)) => {
+                        let cap = b.total_size();
+                        let val = (i as u8).wrapping_mul(37).wrapping_add(11);
+                        match catch(|| alias_probe(b, cap, i % cap, val)) {
+                            Ok((got, full)) => json!({"ev": "alias", "slot": slot, "i": i % cap, "wrote": val, "read": got, "full_window": full}),
+                            Err(p) => json!({"ev": "alias", "slot": slot, "i": i % cap, "wrote": val, "read": -1, "panic": p}),
+                        }
+                    }
+                    _ => json!({"ev": "alias", "slot": slot, "skipped": true}),
+                }
+            }
+            _ => {
+                let n = op[2].as_u64().unwrap();
+                strace_mark(&format!("quiet-{n}"));
+                json!({"ev": "mark", "n": n, "fds": count_dir("/proc/self/fd"), "maps": count_maps()})
+            }
+        };
+    r
+}
+
 /// mmap-run --script FILE --out FILE. Script: {"ops": [[thread, op, ...]], "rlimit_as": bytes|0}
 /// ops: ["new", slot, size, elem] ["drop", slot] ["mark", n] ["alias", slot, i]
 pub fn cmd_mmap_run(args: &[String]) -> i32 {
@@ -602,81 +680,28 @@ pub fn cmd_mmap_run(args: &[String]) -> i32 {
     let script: Value = serde_json::from_str(&std::fs::read_to_string(arg_val(args, "--script").expect("--script")).unwrap()).unwrap();
     let mut o = std::io::BufWriter::new(std::fs::File::create(arg_val(args, "--out").expect("--out")).expect("create"));
     let nthreads = script["threads"].as_u64().unwrap_or(1) as usize;
+    if nthreads == 0 {
+        // everything in the main thread (for system call fault injection by ordinal)
+        let slots: Slots = Default::default();
+        let mut n = 0;
+        for op in script["ops"].as_array().unwrap() {
+            let r = mmap_op(op, &slots);
+            writeln!(o, "{r}").unwrap();
+            o.flush().unwrap();
+            n += 1;
+        }
+        println!("{}", json!({"events": n}));
+        return 0;
+    }
     // worker threads execute ops one at a time (serialised), so syscalls of different ops do not interleave
-    let slots: std::sync::Arc<std::sync::Mutex<std::collections::HashMap<u64, Slot>>> = Default::default();
+    let slots: Slots = Default::default();
     let (txs, handles): (Vec<_>, Vec<_>) = (0..nthreads)
         .map(|_| {
             let (tx, rx) = std::sync::mpsc::channel::<(Value, std::sync::mpsc::Sender<Value>)>();
             let slots = slots.clone();
             let h = std::thread::spawn(move || {
                 for (op, reply) in rx {
-                    let kind = op[1].as_str().unwrap();
-                    let r = match kind {
-                        "new" => {
-                            let slot = op[2].as_u64().unwrap();
-                            let size = op[3].as_u64().unwrap() as usize;
-                            let elem = op[4].as_u64().unwrap();
-                            strace_mark(&format!("new-begin-{slot}"));
-                            fn other<T: Copy + Send + Sync + 'static>(size: usize) -> Result<rustradio::Result<Slot>, String> {
-                                catch(|| rustradio::circular_buffer::Buffer::<T>::new(size)).map(|r| r.map(|b| Slot::Other(Box::new(std::sync::Arc::new(b)))))
-                            }
-                            let res = if elem == 4 {
-                                catch(|| rustradio::circular_buffer::Buffer::<u32>::new(size)).map(|r| r.map(|b| Slot::U32(std::sync::Arc::new(b))))
-                            } else if elem == 3 {
-                                other::<[u8; 3]>(size)
-                            } else if elem == 6 {
-                                other::<[u16; 3]>(size)
-                            } else if elem == 8 {
-                                other::<rustradio::Complex>(size)
-                            } else if elem == 12 {
-                                other::<[f32; 3]>(size)
-                            } else if elem == 24 {
-                                other::<[u64; 3]>(size)
-                            } else if elem == 4096 {
-                                other::<crate::graphs::Big>(size)
-                            } else {
-                                catch(|| rustradio::circular_buffer::Buffer::<u8>::new(size)).map(|r| r.map(|b| Slot::U8(std::sync::Arc::new(b))))
-                            };
-                            let out = match res {
-                                Ok(Ok(s)) => {
-                                    slots.lock().unwrap().insert(slot, s);
-                                    json!({"ev": "new", "slot": slot, "size": size, "elem": elem, "result": "ok"})
-                                }
-                                Ok(Err(e)) => json!({"ev": "new", "slot": slot, "size": size, "elem": elem, "result": "err", "msg": format!("{e}")}),
-                                Err(p) => json!({"ev": "new", "slot": slot, "size": size, "elem": elem, "result": "panic", "msg": p}),
-                            };
-                            strace_mark(&format!("new-end-{slot}"));
-                            out
-                        }
-                        "drop" => {
-                            let slot = op[2].as_u64().unwrap();
-                            strace_mark(&format!("drop-begin-{slot}"));
-                            let had = slots.lock().unwrap().remove(&slot).is_some();
-                            strace_mark(&format!("drop-end-{slot}"));
-                            json!({"ev": "drop", "slot": slot, "had": had})
-                        }
-                        "alias" => {
-                            let slot = op[2].as_u64().unwrap();
-                            let i = op[3].as_u64().unwrap() as usize;
-                            let g = slots.lock().unwrap();
-                            match g.get(&slot) {
-                                Some(Slot::U8(b)) => {
-                                    let cap = b.total_size();
-                                    let val = (i as u8).wrapping_mul(37).wrapping_add(11);
-                                    match catch(|| alias_probe(b, cap, i % cap, val)) {
-                                        Ok((got, full)) => json!({"ev": "alias", "slot": slot, "i": i % cap, "wrote": val, "read": got, "full_window": full}),
-                                        Err(p) => json!({"ev": "alias", "slot": slot, "i": i % cap, "wrote": val, "read": -1, "panic": p}),
-                                    }
-                                }
-                                _ => json!({"ev": "alias", "slot": slot, "skipped": true}),
-                            }
-                        }
-                        _ => {
-                            let n = op[2].as_u64().unwrap();
-                            strace_mark(&format!("quiet-{n}"));
-                            json!({"ev": "mark", "n": n, "fds": count_dir("/proc/self/fd"), "maps": count_maps()})
-                        }
-                    };
+                    let r = mmap_op(&op, &slots);
                     let _ = reply.send(r);
                 }
             });
